@@ -1128,7 +1128,68 @@ def enum_constants(tier):
 
 # ---------------------------------------------------------------- arms
 
+# ------------------------------------------------------------------ curves with a cofactor (constructor parameter h)
+
+def _cofactor_curves(maxp):
+  """Toy curves whose group order N = h * n with n prime and h > 1, generator of order n (brute force)."""
+  out = []
+  for p in (p for p in range(11, maxp) if all(p % q for q in range(2, int(p ** 0.5) + 1))):
+    for b in range(1, p):
+      a = 1
+      if (4 * a ** 3 + 27 * b * b) % p == 0:
+        continue
+      pts = ec_ref.toy_points(p, a, b)
+      N = len(pts) + 1
+      for n in range(N // 2, 6, -1):
+        if N % n == 0 and all(n % q for q in range(2, int(n ** 0.5) + 1)) and N // n > 1 and (N // n) % n:
+          R = ec_ref.RefCurve(p, a, b)
+          g = next((R.mul(P, N // n) for P in pts if R.mul(P, N // n) is not None), None)
+          if g is not None:
+            out.append({'p': p, 'a': a, 'b': b, 'gx': g[0], 'gy': g[1], 'n': n, 'h': N // n})
+          break
+      if len(out) and out[-1]['p'] == p:
+        break
+    if len(out) >= 6:
+      break
+  return out
+
+
+def run_cofactor_multiply(desc):
+  """Multiply / MultiplyAffine on EVERY point of a curve with cofactor h > 1 (points outside the subgroup of
+  the generator included) for every scalar in [-2N, 2N]: the textbook multiple."""
+  c = desc['c']
+  R = ec_ref.RefCurve(c['p'], c['a'], c['b'])
+  curve = libcall(ec_util.EcCurve, 'toy-h', c['a'], c['b'], c['p'], c['gx'], c['gy'], c['n'], c['h'])
+  pts = ec_ref.toy_points(c['p'], c['a'], c['b'])
+  N = c['n'] * c['h']
+  outside = 0
+  for P in pts[desc['lo']::desc['step']]:
+    in_sub = R.mul(P, c['n']) is None
+    outside += not in_sub
+    if P[1] == 0:
+      continue   # 2-torsion: the affine doubling formula is not defined (DoubleJacobian handles it)
+    for k in range(-2 * N, 2 * N + 1):
+      want = R.mul(P, k)
+      got = libcall(curve.Multiply, (gmpy.mpz(P[0]), gmpy.mpz(P[1])), k)
+      g = None if got == ec_util.INFINITY else (int(got[0]) % c['p'], int(got[1]) % c['p'])
+      if g != want:
+        raise Violation('grouplaw:Multiply-on-cofactor-curve', curve=c, point=list(P), k=k,
+                        got=None if g is None else list(g), expected=None if want is None else list(want),
+                        point_in_subgroup=in_sub)
+    valid = libcall(curve.IsValidPublicKey, (gmpy.mpz(P[0]), gmpy.mpz(P[1])))
+    if bool(valid) != in_sub:
+      raise Violation('grouplaw:subgroup-membership', curve=c, point=list(P), got=bool(valid), expected=in_sub)
+  return {'nt': outside > 0, 'cls': ['cofactor h=%d' % c['h']] + (['cofactor: points outside the subgroup'] if outside else [])}
+
+
+def enum_cofactor(tier):
+  for c in _cofactor_curves(60 if tier == 'quick' else 200):
+    for lo in range(4):
+      yield {'c': c, 'lo': lo, 'step': 4}
+
+
 ARMS = [
+    Arm('cofactor_multiply', run_cofactor_multiply, enumerate=enum_cofactor, exhaustive=True, budget=(200, 1500)),
     Arm('toy_pairs', run_toy, enumerate=enum_toy_pairs, exhaustive=True, weight=3,
         doc='all ordered pairs of every toy group through the affine/Jacobian/batched additions; '
             'all elements through Negate/Double/BatchDouble'),
